@@ -1,1 +1,278 @@
-// verification hook for h263/src/decoder/cpu/idct.rs (compiled only under cfg(kani) or cfg(ruffle_rs_h263_rs_verif))
+// Hook module of h263/src/decoder/cpu/idct.rs.  Properties C02 (structure of the separable IDCT, rounding, clipping, cropping), C01 (no panic for
+// blocks outside the frame), C10-deterministic clauses (zero block, DC shortcut).
+//
+// idct_channel only CALLS the 1-D kernel idct_1d, so its plumbing (row pass, transposition, column pass, un-transposition, the four sparse-block
+// shortcuts, rounding, residual addition, clipping, cropping to the plane) is verified against idct_1d's CONTRACT with the kernel left abstract:
+// the stub K is non-idempotent and position-sensitive, K(v)[i] = v[(i+1) % 8] + 1.0 (exact in f32 for the integer-valued inputs used), so that any
+// mix-up of rows/columns/indices is visible (assumption A-PARAM).  The numeric accuracy of the real kernel is assumption A-F32-DOT.
+#![allow(dead_code, unused_imports)]
+use super::*;
+
+include!("/verif/hooks/common.rs");
+
+fn k_stub(input: &[f32; 8], output: &mut [f32; 8]) {
+    let mut i = 0;
+    while i < 8 {
+        output[i] = input[(i + 1) % 8] + 1.0;
+        i += 1;
+    }
+}
+fn kk(v: &[f32; 8]) -> [f32; 8] {
+    let mut o = [0.0f32; 8];
+    k_stub(v, &mut o);
+    o
+}
+// the rounding of the code, as a specification: v/4 rounded half away from zero, clipped to -256..255
+fn rnd(v: f32) -> i16 {
+    let q = (v / 4.0 + v.signum() * 0.5) as i16;
+    if q < -256 { -256 } else if q > 255 { 255 } else { q }
+}
+fn clip255(v: i16) -> u8 {
+    if v < 0 { 0 } else if v > 255 { 255 } else { v as u8 }
+}
+fn coef<S: Src>(s: &mut S) -> f32 {
+    let c = s.i16();
+    s.assume(c >= -2048 && c <= 2047);
+    c as f32
+}
+
+// one block of variant V (0 Zero, 1 Dc, 2 Horiz, 3 Vert, 4 Full) at block position (BX, BY) of a plane W x H with BPL blocks per line and NB blocks;
+// every other block Zero; the plane pre-filled with arbitrary prediction samples.
+fn h_struct<S: Src, const W: usize, const H: usize, const N: usize, const BPL: usize, const NB: usize, const BX: usize, const BY: usize, const V: usize>(s: &mut S) {
+    let mut levels = [DecodedDctBlock::Zero; NB];
+    let mut full = [[0.0f32; 8]; 8];
+    let mut line = [0.0f32; 8];
+    let mut dc = 0.0f32;
+    if V == 1 {
+        dc = coef(s);
+        levels[BX + BY * BPL] = DecodedDctBlock::Dc(dc);
+    } else if V == 2 || V == 3 {
+        let mut i = 0;
+        while i < 8 {
+            line[i] = coef(s);
+            i += 1;
+        }
+        levels[BX + BY * BPL] = if V == 2 { DecodedDctBlock::Horiz(line) } else { DecodedDctBlock::Vert(line) };
+    } else if V == 4 {
+        let mut r = 0;
+        while r < 8 {
+            let mut c = 0;
+            while c < 8 {
+                full[r][c] = coef(s);
+                c += 1;
+            }
+            r += 1;
+        }
+        levels[BX + BY * BPL] = DecodedDctBlock::Full(full);
+    }
+    let pred: [u8; N] = s.arr();
+    let mut out = pred;
+    idct_channel(&levels, &mut out, BPL, W);
+    // expected residual of the block per sample offset (xo, yo)
+    let b00 = BASIS_TABLE[0][0];
+    let hk = kk(&line);
+    let mut t = [[0.0f32; 8]; 8]; // row pass
+    let mut r = 0;
+    while r < 8 {
+        t[r] = kk(&full[r]);
+        r += 1;
+    }
+    let mut ok = true;
+    let mut frame = true;
+    let mut y = 0;
+    while y < H {
+        let mut x = 0;
+        while x < W {
+            let inside = x >= BX * 8 && x < BX * 8 + 8 && y >= BY * 8 && y < BY * 8 + 8;
+            let got = out[x + y * W];
+            if !inside || V == 0 {
+                if got != pred[x + y * W] {
+                    frame = false;
+                }
+            } else {
+                let (xo, yo) = (x - BX * 8, y - BY * 8);
+                let res: i16 = if V == 1 {
+                    rnd(dc * 0.5)
+                } else if V == 2 {
+                    rnd(hk[xo] * b00)
+                } else if V == 3 {
+                    rnd(hk[yo] * b00)
+                } else {
+                    // column xo of the row-pass result, transformed again, sample yo
+                    let mut col = [0.0f32; 8];
+                    let mut r2 = 0;
+                    while r2 < 8 {
+                        col[r2] = t[r2][xo];
+                        r2 += 1;
+                    }
+                    rnd(kk(&col)[yo])
+                };
+                if got != clip255(res + pred[x + y * W] as i16) {
+                    ok = false;
+                }
+            }
+            x += 1;
+        }
+        y += 1;
+    }
+    chk!(s, ok, "idct.idct_channel.post_struct: sample = clip(prediction + round(K(columns of K(rows)) / 4)) at the block's position (shortcuts: Dc d/8, Horiz K(row)[x]*c0, Vert K(col)[y]*c0), cropped to the plane");
+    chk!(s, frame, "idct.idct_channel.frame: samples outside the block's 8x8 area (and Zero blocks) keep the prediction");
+    s.reach();
+}
+
+// exact f32 lemmas on the real expressions -------------------------------------------------------------------------------------------------------------
+// (a) the Dc shortcut: (d*0.5/4 + signum(d)*0.5) as i16 is d/8 rounded half away from zero, for every integer d in -2048..=2047
+fn h_dc_round<S: Src>(s: &mut S) {
+    let d = s.i16();
+    s.assume(d >= -2048 && d <= 2047);
+    let dc = d as f32;
+    let got = (dc * 0.5 / 4.0 + dc.signum() * 0.5) as i16;
+    let a = if d < 0 { -(d as i32) } else { d as i32 };
+    let q = (a + 4) / 8; // |d|/8 rounded half up
+    let want = if d < 0 { -q } else { q };
+    chk!(s, got as i32 == want, "idct.dc_shortcut.round: the DC-only reconstruction is d/8 rounded half away from zero (the ideal IDCT of a DC block is d/8)");
+    chk!(s, d != 0 || got == 0, "idct.dc_shortcut.zero: a zero coefficient gives a zero residual");
+    s.reach();
+}
+// (b) rnd(v) for integer-valued v (what the abstract kernel yields): v/4 rounded half away from zero
+fn h_rnd_int<S: Src>(s: &mut S) {
+    let v = s.i16();
+    s.assume(v >= -8192 && v <= 8192);
+    let f = v as f32;
+    let got = (f / 4.0 + f.signum() * 0.5) as i16;
+    let a = if v < 0 { -(v as i32) } else { v as i32 };
+    let q = (a + 2) / 4;
+    let want = if v < 0 { -q } else { q };
+    chk!(s, got as i32 == want, "idct.rnd.integer: (v/4 + signum(v)*0.5) as i16 is v/4 rounded half away from zero for integer v");
+    s.reach();
+}
+// (c) the first basis row is constant (why the Horiz / Vert shortcuts may multiply by BASIS_TABLE[0][0])
+fn h_basis_row0<S: Src>(s: &mut S) {
+    let mut i = 0;
+    let mut ok = true;
+    while i < 8 {
+        if BASIS_TABLE[0][i] != BASIS_TABLE[0][0] {
+            ok = false;
+        }
+        i += 1;
+    }
+    chk!(s, ok && BASIS_TABLE[0][0] > 0.70710 && BASIS_TABLE[0][0] < 0.70711, "idct.BASIS_TABLE.row0: c(0)*cos(0) = 1/sqrt(2) at every position");
+    s.reach();
+}
+// (d) BASIS_TABLE[f][i] within 2e-6 of c(f) * cos((2i+1) f pi / 16); reference values tabulated to 9 digits (computed from the formula, not copied)
+const COS_REF: [[f64; 8]; 8] = [
+    [0.707106781, 0.707106781, 0.707106781, 0.707106781, 0.707106781, 0.707106781, 0.707106781, 0.707106781],
+    [0.980785280, 0.831469612, 0.555570233, 0.195090322, -0.195090322, -0.555570233, -0.831469612, -0.980785280],
+    [0.923879533, 0.382683432, -0.382683432, -0.923879533, -0.923879533, -0.382683432, 0.382683432, 0.923879533],
+    [0.831469612, -0.195090322, -0.980785280, -0.555570233, 0.555570233, 0.980785280, 0.195090322, -0.831469612],
+    [0.707106781, -0.707106781, -0.707106781, 0.707106781, 0.707106781, -0.707106781, -0.707106781, 0.707106781],
+    [0.555570233, -0.980785280, 0.195090322, 0.831469612, -0.831469612, -0.195090322, 0.980785280, -0.555570233],
+    [0.382683432, -0.923879533, 0.923879533, -0.382683432, -0.382683432, 0.923879533, -0.923879533, 0.382683432],
+    [0.195090322, -0.555570233, 0.831469612, -0.980785280, 0.980785280, -0.831469612, 0.555570233, -0.195090322],
+];
+fn h_basis_cos<S: Src>(s: &mut S) {
+    let mut f = 0;
+    let mut ok = true;
+    while f < 8 {
+        let mut i = 0;
+        while i < 8 {
+            let d = BASIS_TABLE[f][i] as f64 - COS_REF[f][i];
+            if d > 2e-6 || d < -2e-6 {
+                ok = false;
+            }
+            i += 1;
+        }
+        f += 1;
+    }
+    chk!(s, ok, "idct.BASIS_TABLE.cosines: every entry within 2e-6 of c(f) cos((2i+1) f pi / 16)");
+    s.reach();
+}
+// (e) the real 1-D kernel maps the zero vector to zero (C10: an all-zero block gives all zeros) and is the dot product with the table for unit inputs
+fn h_idct1d_units<S: Src>(s: &mut S) {
+    let mut o = [9.0f32; 8];
+    idct_1d(&[0.0; 8], &mut o);
+    let mut z = true;
+    let mut i = 0;
+    while i < 8 {
+        if o[i] != 0.0 {
+            z = false;
+        }
+        i += 1;
+    }
+    chk!(s, z, "idct.idct_1d.zero: the zero vector transforms to the zero vector");
+    let f = (s.u8() % 8) as usize;
+    let mut e = [0.0f32; 8];
+    e[f] = 1.0;
+    idct_1d(&e, &mut o);
+    let mut ok = true;
+    let mut i = 0;
+    while i < 8 {
+        if o[i] != BASIS_TABLE[f][i] {
+            ok = false;
+        }
+        i += 1;
+    }
+    chk!(s, ok, "idct.idct_1d.unit: the f-th unit vector transforms to row f of the basis table");
+    s.reach();
+}
+
+#[cfg(kani)]
+mod proofs {
+    use super::*;
+    macro_rules! st {
+        ($name:ident, $w:expr, $h:expr, $bpl:expr, $nb:expr, $bx:expr, $by:expr, $v:expr) => {
+            #[kani::proof]
+            #[kani::unwind(200)]
+            #[kani::stub(super::super::idct_1d, k_stub)]
+            fn $name() {
+                h_struct::<KSrc, $w, $h, { $w * $h }, $bpl, $nb, $bx, $by, $v>(&mut KSrc)
+            }
+        };
+    }
+    include!("/verif/hooks/h263/decoder/cpu/idct_shapes.rs");
+    #[kani::proof]
+    fn dc_round() {
+        h_dc_round(&mut KSrc)
+    }
+    #[kani::proof]
+    fn rnd_int() {
+        h_rnd_int(&mut KSrc)
+    }
+    #[kani::proof]
+    #[kani::unwind(10)]
+    fn basis_row0() {
+        h_basis_row0(&mut KSrc)
+    }
+    #[kani::proof]
+    #[kani::unwind(10)]
+    fn basis_cos() {
+        h_basis_cos(&mut KSrc)
+    }
+    #[kani::proof]
+    #[kani::unwind(10)]
+    fn idct1d_units() {
+        h_idct1d_units(&mut KSrc)
+    }
+}
+
+#[cfg(all(test, not(kani)))]
+mod replay {
+    use super::*;
+    // natively the real idct_1d runs: the structural postcondition with the abstract kernel does not apply; the native witness for a structural
+    // failure is the decode-level reference harness (hooks/.../state.rs `intra_dyn`)
+    fn dispatch(name: &str, r: &mut RSrc) -> bool {
+        match name {
+            "dc_round" => h_dc_round(r),
+            "rnd_int" => h_rnd_int(r),
+            "basis_row0" => h_basis_row0(r),
+            "basis_cos" => h_basis_cos(r),
+            "idct1d_units" => h_idct1d_units(r),
+            _ => return false,
+        }
+        true
+    }
+    #[test]
+    fn verif_replay() {
+        verif_replay_main(dispatch)
+    }
+}
